@@ -183,7 +183,7 @@ def handleArcSwap (tail : List String) : String :=
         | _ => line
   | _ => "bad-op"
 
-def handle (toks : List String) : String :=
+def handle1 (toks : List String) : String :=
   match toks with
   | "vnbest" :: rest => relabel (Coupe.Driver.C14.handle ("best" :: rest))
   | "vnfirst" :: rest => relabel (Coupe.Driver.C14.handle ("first" :: rest))
@@ -194,5 +194,15 @@ def handle (toks : List String) : String :=
   | "kmeans2" :: rest => handleKMeans 2 rest
   | "kmeans3" :: rest => handleKMeans 3 rest
   | _ => "bad-op"
+
+/-- `large …`: a recipe op of the large / corner stream that the harness did NOT expand (the model
+would take too long at that size): oracle only.  `reuse <op>`: the implementation used one
+algorithm value for two calls and reports the second; the model knows no history – it predicts the
+result of `<op>` itself. -/
+def handle (toks : List String) : String :=
+  match toks with
+  | "large" :: _ => "skip large-n (oracle only)"
+  | "reuse" :: rest => handle1 rest
+  | _ => handle1 toks
 
 end Coupe.Driver.C02
